@@ -18,10 +18,16 @@ spec/SigCheck.tla   decision tables written from SEC 1 / BIP 66 / BIP 340 / BIP 
      (both nonce modes), secp256k1.SchnorrSign, Signature.Sign and compared with the promise and the reference signer
   3. sweeps: key derivation / DeriveNextPublic / recovery over long arithmetic progressions against the reference
   4. single-bit mutations of valid triples, verdict by the reference
+  4b. the transaction-level signers Tx.Sign / Tx.SignWitness over thousands of seeded transactions (strict DER, low S,
+     reference verification, script.VerifyTxScript; the r / s length classes that need a DER pad byte are counted and
+     must be reached); operand preservation of every signer (key / digest / aux passed as sub-slices of guarded
+     buffers, then reused for a second signature); a concurrency stage (16 goroutines at GOMAXPROCS 2 / 4 / 16 calling
+     the verifiers, parsers and recovery on table rows at once, every answer = the table's verdict) and the same
+     under the Go race detector (a report with both accesses inside the repository is a violation)
   5. binding self-test: corrupted predictions must be rejected (by the spec-vs-reference cross-check, and - with that
      cross-check switched off - by the comparison with the code)
 """
-import json, os, random
+import json, os, random, re
 from vf import Infra
 
 DER_ALL = ["strict", "strict_ht", "pad_r", "pad_s", "neg", "trail", "longlen", "seqlen", "badtag", "badinttag", "trunc", "zerolen", "empty"]
@@ -197,6 +203,53 @@ def run(ctx):
     total["fail"] += s4["fail"]
     nontriv += s4["distinct_nontrivial"]
 
+    # ---- 4b. transaction-level signers
+    ntx = 4000 if quick else 40000
+    s5, f5 = driver(ctx, binp, ["txsign", "-n", str(ntx), "-seed", str(ctx.seed), "-workers", str(ncpu)])
+    if s5.get("infra"):
+        raise Infra("txsign: %s" % s5["infra"][:3])
+    record(ctx, f5, "txsign", dict(seed=ctx.seed, n=ntx))
+    ctx.log("Tx.Sign / Tx.SignWitness: %d transactions, %d failures; length classes reached %s" % (s5["cases"], s5["fail"], s5.get("observations")))
+    cov["tx_signatures"] = s5["cases"]
+    cov["tx_signature_length_classes"] = s5.get("observations", {})
+    total["cases"] += s5["cases"]
+    total["checks"] += s5["checks"]
+    total["fail"] += s5["fail"]
+    nontriv += s5["distinct_nontrivial"]
+
+    # ---- 4c. concurrency: table rows from many goroutines at once, then the same under the race detector
+    stress_rows = []
+    for sline in rows:
+        j = json.loads(sline)
+        if j["tab"] == "lows" or (j["tab"] == "ecdsa" and not (len(j["rules"]) <= 1 and j["der"] == "strict")):
+            continue
+        stress_rows.append(sline)
+    stress_path = os.path.join(ctx.scratch, "rows-stress.json")
+    open(stress_path, "w").write("\n".join(stress_rows) + "\n")
+    s6, f6 = driver(ctx, binp, ["stress", "-in", stress_path, "-seed", str(ctx.seed), "-inst", "2", "-workers", "16",
+                                "-rounds", str(8 if quick else 60), "-procs", "2,4,16"])
+    if s6.get("infra"):
+        raise Infra("stress: %s" % s6["infra"][:3])
+    record(ctx, f6, "stress", dict(seed=ctx.seed, path="rows-stress"))
+    conc = dict(s6.get("observations") or {}, calls=s6["cases"], wrong=s6["fail"])
+    total["cases"] += s6["cases"]
+    total["checks"] += s6["checks"]
+    total["fail"] += s6["fail"]
+    ctx.log("concurrent calls on %d table rows x 2 from 16 goroutines: %s" % (len(stress_rows), conc))
+    cov["concurrent_calls"] = conc
+    binr = ctx.build("sigcheck", race=True)
+    pr = ctx.run([binr, "stress", "-in", stress_path, "-seed", str(ctx.seed), "-inst", "1", "-workers", "8", "-rounds", "1" if quick else "4"],
+                 timeout=3000, env={"GORACE": "halt_on_error=0"})
+    if "summary" not in pr.stdout:
+        raise Infra("race build of the stress stage failed: %s" % pr.stderr[-2000:])
+    genuine, other = race_reports(ctx, pr.stderr)
+    for sig, txt in genuine:
+        ctx.violation(sig, dict(mode="race", seed=ctx.seed, report=txt), "the Go race detector reports a data race between calls that must be independent: " + txt[:1500])
+    cov["race_detector"] = {"reports_in_repository": len(genuine), "other_reports": len(other)}
+    if other:
+        raise Infra("race detector reports outside the repository (harness?): %s" % other[0][1][:1500])
+    ctx.log("race build: %d reports inside the repository" % len(genuine))
+
     # ---- 5. binding self-test
     selftest(ctx, binp, rows, sign)
 
@@ -214,6 +267,35 @@ def run(ctx):
         "a valid signature in a readable non-canonical DER form is not judged (consensus reads it laxly, BIP 66 refuses it at the script layer): the code's answers are recorded in not_judged_lax_encodings",
         "x-only keys and BIP 340 signatures are offered with their exact lengths (32 / 64 bytes) only",
     ]
+
+
+def race_reports(ctx, stderr):
+    """Split the race detector's output; a report whose two accesses both have their innermost non-runtime frame
+    inside the repository under test is genuine (signature = the two functions), anything else is the harness's."""
+    repo = os.path.realpath(ctx.repo)
+    genuine, other = [], []
+    for blk in stderr.split("=================="):
+        if "WARNING: DATA RACE" not in blk:
+            continue
+        tops = []
+        for sec in re.split(r"\n\s*\n", blk):
+            m = re.search(r"^(?:Previous )?(?:[Aa]tomic )?(?:[Rr]ead|[Ww]rite) at 0x[0-9a-f]+ by .*?:\n((?:  .*\n?)+)", sec, re.M)
+            if not m:
+                continue
+            top = None
+            for fun, path, line in re.findall(r"^  (\S.*)\n\s+(\S+?):(\d+)", m.group(1), re.M):
+                if "/go-" in path or "/go/src/" in path or path.startswith("/usr/lib/go") or "/golang" in path:
+                    continue
+                top = (re.sub(r"\(\)$", "", fun).replace("github.com/piotrnar/gocoin/", ""), path)
+                break
+            tops.append(top)
+        if len(tops) < 2 or any(t is None for t in tops[:2]):
+            other.append(("unparsed", blk[:3000]))
+            continue
+        inrepo = [os.path.realpath(t[1]).startswith(repo) for t in tops[:2]]
+        names = sorted(set("%s@%s" % (t[0], os.path.basename(t[1])) for t in tops[:2]))
+        (genuine if all(inrepo) else other).append(("C03:race:" + "|".join(names), blk[:6000]))
+    return genuine, other
 
 
 def selftest(ctx, binp, rows, sign):
@@ -277,6 +359,11 @@ def replay_cmd(ctx, path):
         s, f = driver(ctx, binp, ["replay", "-in", p, "-seed", str(rp["seed"]), "-inst", str(rp["ninst"]), "-only", str(rp["inst"]), "-workers", "1"])
     elif mode == "sweep":
         s, f = driver(ctx, binp, ["sweep", "-n", str(rp["n"]), "-seed", str(rp["seed"]), "-workers", str(os.cpu_count() or 4)])
+    elif mode == "txsign":
+        s, f = driver(ctx, binp, ["txsign", "-n", str(rp["n"]), "-seed", str(rp["seed"]), "-workers", str(os.cpu_count() or 4)])
+    elif mode in ("stress", "race"):
+        print("concurrency findings: re-run the check with VERIF_SEED=%s" % rp.get("seed"))
+        return 2
     elif mode == "mutate":
         s, f = driver(ctx, binp, ["mutate", "-n", str(rp["n"]), "-flips", str(rp["flips"]), "-seed", str(rp["seed"]), "-workers", str(os.cpu_count() or 4)])
     else:
